@@ -261,6 +261,18 @@ def run(ctx):
         ctx.sample({"chains": pick[0]})
         bad = validate(ctx, "TraceThetaStore", traces, decide=None, next_="TNext", init="TInit",
                        constants={"Model": "ops", "MaxCap": 99, "MaxDepth": 99, "Sizes": {1}, "MaxChains": 3, "Export": False})
+        badset = {b[0] for b in bad if traces[b[0]]["kind"] == "ops"}
+        opsok = [t for i, t in enumerate(traces) if t["kind"] == "ops" and i not in badset and any(e["mem"][0]["items"] for e in t["events"])]
+        if opsok:
+            from harness.tracecheck import selftest
+
+            def corrupt(t):
+                for e in t["events"]:
+                    if e["mem"][0]["items"]:
+                        e["mem"][0]["items"][0] += 1
+                        return "identity token of one stored sample changed in the log"
+            selftest(ctx, "TraceThetaStore", opsok[0], corrupt, decide=None, next_="TNext", init="TInit",
+                     constants={"Model": "ops", "MaxCap": 99, "MaxDepth": 99, "Sizes": {1}, "MaxChains": 3, "Export": False})
         # chains traces need Model = "chains": validate them separately
         ch = [t for t in traces if t["kind"] == "chains"]
         bad = [b for b in bad if traces[b[0]]["kind"] == "ops"]
